@@ -72,8 +72,9 @@ static void check_projection(Ctx& ctx, const Ell& E, const Under& U, const Oracl
     if (!U.has_lon0 && lon0 != 0) continue;
     const double lon = lon0 + dnom, dlon = eff_dlon(lon0, lon);
     mc::Ctx::Case cs(ctx);
-    const std::string where = U.name + " lat=" + fx(lat) + " lon0=" + fmt(lon0) + " lon=" + fx(lon) + " dlon=" + fx(dlon);
-    auto WORST = [&](const std::string& nm, double v, const std::string& w) { if (clean_obj && !(fam.prolate && nm.find("rev") != std::string::npos) && !(fam.prolate && nm.find("roundtrip") != std::string::npos)) ctx.worst(nm, v, w); };
+    auto WH = [&]() { return U.name + " lat=" + fx(lat) + " lon0=" + fmt(lon0) + " lon=" + fx(lon) + " dlon=" + fx(dlon); };   // built only when needed
+#define where WH()
+    auto WORST = [&](const std::string& nm, double v, int /*the case description is built lazily*/) { if (clean_obj) ctx.worstf(nm, v, WH); };
     auto FAIL = [&](const char* kind, const std::string& msg, mc::Fields extra = {}) {
       mc::Fields f = {{"kind", kind}, {"proj", U.name}, {"lat", fmt(lat)}, {"dlon", fmt(dlon)}, {"lon0", fmt(lon0)}};
       for (auto& t : extra) f.push_back(t);
@@ -135,12 +136,12 @@ static void check_projection(Ctx& ctx, const Ell& E, const Under& U, const Oracl
       }
       const char* cls = O.conformal ? "conformal" : "albers";
       if (gerr > TOLF) defect_hit = is_defect();
-      WORST(std::string(cls) + ".fwd.pos/tol", D(gerr / TOLF), where);
-      if (eps_plane * amp < TOLP) WORST(std::string(cls) + ".fwd.pos-wellconditioned_nm", D(gerr / ascale * 1e9Q), where);
+      WORST(std::string(cls) + ".fwd.pos/tol", D(gerr / TOLF), 0);
+      if (eps_plane * amp < TOLP) WORST(std::string(cls) + ".fwd.pos-wellconditioned_nm", D(gerr / ascale * 1e9Q), 0);
       if (gerr > TOLF) FAIL("fwd-oracle", "ground error " + fq(gerr) + " m > " + fq(TOLF) + " (x=" + fx(x) + " y=" + fx(y) + " closed form " + fq(P.x) + "," + fq(P.y) + " k=" + fq(kk) + ")", DT());
       Q eg = fabsq(angdiff(Q(gam), gref)), ek = fabsq(Q(k) / kk - 1);
-      WORST(std::string(cls) + ".fwd.gamma/tol", D(eg / GTOL), where);
-      WORST(std::string(cls) + ".fwd.k/tol", D(ek / TK), where);
+      WORST(std::string(cls) + ".fwd.gamma/tol", D(eg / GTOL), 0);
+      WORST(std::string(cls) + ".fwd.k/tol", D(ek / TK), 0);
       if (eg > GTOL) FAIL("fwd-convergence", "gamma=" + fx(gam) + " closed form " + fq(gref));
       if (ek > TK) FAIL("fwd-scale", "k=" + fx(k) + " closed form " + fq(kk) + " tol " + fq(TK), DT());
     } else {
@@ -154,7 +155,7 @@ static void check_projection(Ctx& ctx, const Ell& E, const Under& U, const Oracl
       XY Pn = O.fwd(Ln, lam);
       if (!O.conformal) {            // equal area: the pole is a finite arc (or line) with k = inf: plane tolerance
         Q e = hypotq(Q(x) - P.x, Q(y) - P.y), t = TOLP + 16 * 1.1e-16Q * hypotq(P.x, P.y);
-        WORST("albers.singular-pole.plane/tol", D(e / t), where);
+        WORST("albers.singular-pole.plane/tol", D(e / t), 0);
         if (e > t) FAIL("singular-pole", "pole arc: x=" + fx(x) + " y=" + fx(y) + " closed form " + fq(P.x) + "," + fq(P.y), DT());
       } else if (O.conic) {
         Q rl = hypotq(Q(x), O.rho0 - Q(y)), rn = hypotq(Pn.x, O.rho0 - Pn.y);
@@ -173,7 +174,7 @@ static void check_projection(Ctx& ctx, const Ell& E, const Under& U, const Oracl
     // ---- scale prescribed on the standard parallels
     for (double sl : stdlats) if (lat == sl && !singular) {
       Q ek = fabsq(Q(k) / Q(k1) - 1);
-      WORST("std-parallel.k/tol", D(ek / TK), where);
+      WORST("std-parallel.k/tol", D(ek / TK), 0);
       if (ek > TK) FAIL("std-parallel-scale", "k=" + fx(k) + " on the standard parallel, prescribed " + fmt(k1), DT());
     }
 
@@ -187,9 +188,9 @@ static void check_projection(Ctx& ctx, const Ell& E, const Under& U, const Oracl
       Q rot = -atan2q(nx, ny) / proj_cf::deg();
       const Q JT = 1e-12Q;
       Q e1 = fabsq(Q(k) / mE - 1), e2 = O.conformal ? fabsq(mN / mE - 1) : fabsq(mN * mE - 1), e3 = fabsq(dot), e4 = fabsq(angdiff(Q(gam), rot)), e5 = O.conformal ? Q(0) : fabsq(det - 1);
-      WORST("jacobian.k-vs-magnification/tol", D(e1 / JT), where);
-      WORST(O.conformal ? "jacobian.isotropy/tol" : "jacobian.area/tol", D((O.conformal ? e2 : std::max(e2, e5)) / JT), where);
-      WORST("jacobian.gamma-vs-rotation/tol", D(e4 / (GTOL + 1e-10Q)), where);
+      WORST("jacobian.k-vs-magnification/tol", D(e1 / JT), 0);
+      WORST(O.conformal ? "jacobian.isotropy/tol" : "jacobian.area/tol", D((O.conformal ? e2 : std::max(e2, e5)) / JT), 0);
+      WORST("jacobian.gamma-vs-rotation/tol", D(e4 / (GTOL + 1e-10Q)), 0);
       if (e1 > JT) FAIL("jacobian-scale", "k=" + fx(k) + " but the closed-form map stretches east-west by " + fq(mE), DT());
       if (e2 > JT || e3 > JT || e5 > JT) FAIL("jacobian-oracle", "closed-form map not conformal/equal-area here: |N|=" + fq(mN) + " |E|=" + fq(mE) + " cos=" + fq(dot) + " det=" + fq(det));
       if (e4 > GTOL + 1e-10Q) FAIL("jacobian-rotation", "gamma=" + fx(gam) + " but the closed-form map rotates north by " + fq(rot));
@@ -210,10 +211,10 @@ static void check_projection(Ctx& ctx, const Ell& E, const Under& U, const Oracl
       // convergence returned by Reverse = atan2 of plane coordinates relative to the apex: position tolerance and rounding over the distance to the apex
       const Q tgr = 2 * GTOL + (tplane_r / rapex) / proj_cf::deg();
       if (singular) {
-        WORST(O.conformal ? "roundtrip.singular-pole.conformal_m" : "roundtrip.singular-pole.albers/tol", D(O.conformal ? err : err / trt), where);
+        WORST(O.conformal ? "roundtrip.singular-pole.conformal_m" : "roundtrip.singular-pole.albers/tol", D(O.conformal ? err : err / trt), 0);
         if (!(err <= trt)) FAIL("roundtrip-singular-pole", "reverse(forward(pole)) = lat " + fx(la2) + ", " + fq(err) + " m from the pole", DR());
       } else {
-        WORST(std::string(O.conformal ? "conformal" : "albers") + ".roundtrip/tol", D(err / trt), where);
+        WORST(std::string(O.conformal ? "conformal" : "albers") + ".roundtrip/tol", D(err / trt), 0);
         if (!(err <= trt)) {
           if (fam.prolate && err <= tauf_gross) FAIL("roundtrip", "reverse(forward) = lat " + fx(la2) + " lon " + fx(lo2) + ", ground error " + fq(err) + " m > " + fq(trt), {{"tauf", "prolate-reverse"}});
           else FAIL("roundtrip", "reverse(forward) = lat " + fx(la2) + " lon " + fx(lo2) + ", ground error " + fq(err) + " m > " + fq(trt), DR());
@@ -222,8 +223,8 @@ static void check_projection(Ctx& ctx, const Ell& E, const Under& U, const Oracl
         const Q pdist = E.a * (L.c > 1e-30Q ? L.c : 1e-30Q);                    // ~ distance to the pole
         Q tk2 = 4 * TK + 2 * trt / pdist;                                        // scale varies like 1/cos(lat) near a singular pole: latitude tolerance over the polar distance
         if (trt >= pdist / 4) tk2 = HUGE_VALQ;                                   // latitude tolerance reaches the pole: k unconstrained
-        WORST("rev-vs-fwd.gamma/tol", D(eg / tgr), where);
-        WORST("rev-vs-fwd.k/tol", D(ek / tk2), where);
+        WORST("rev-vs-fwd.gamma/tol", D(eg / tgr), 0);
+        WORST("rev-vs-fwd.k/tol", D(ek / tk2), 0);
         if (eg > tgr && fabsq(O.n * Q(dlon)) < 180 && !regpole) FAIL("rev-convergence", "Reverse gamma=" + fx(g2) + " Forward gamma=" + fx(gam));
         if (ek > tk2) { if (fam.prolate && err <= tauf_gross) FAIL("rev-scale", "Reverse k=" + fx(k2) + " Forward k=" + fx(k), {{"tauf", "prolate-reverse"}}); else FAIL("rev-scale", "Reverse k=" + fx(k2) + " Forward k=" + fx(k), DR()); }
       }
@@ -237,7 +238,7 @@ static void check_projection(Ctx& ctx, const Ell& E, const Under& U, const Oracl
       Q err = hypotq(dN, dE);
       Q trt = TOLR;
       const Q tgr = 2 * GTOL + (tplane_r / rapex) / proj_cf::deg();
-      WORST(std::string(O.conformal ? "conformal" : "albers") + ".rev-oracle.pos/tol", D(err / trt), where);
+      WORST(std::string(O.conformal ? "conformal" : "albers") + ".rev-oracle.pos/tol", D(err / trt), 0);
       if (!(err <= trt)) {
         if (fam.prolate && err <= tauf_gross) FAIL("rev-oracle", "Reverse(closed-form image) = lat " + fx(la2) + " lon " + fx(lo2) + ", ground error " + fq(err) + " m", {{"tauf", "prolate-reverse"}});
         else FAIL("rev-oracle", "Reverse(closed-form image) = lat " + fx(la2) + " lon " + fx(lo2) + ", ground error " + fq(err) + " m > " + fq(trt), (!U.defect.empty() && U.defect_in_reverse) ? mc::Fields{{"defect", U.defect}} : mc::Fields{});
@@ -246,12 +247,13 @@ static void check_projection(Ctx& ctx, const Ell& E, const Under& U, const Oracl
       const Q pdist = E.a * (L.c > 1e-30Q ? L.c : 1e-30Q);
       Q tk2 = 4 * TK + 2 * trt / pdist;
       if (trt >= pdist / 4) tk2 = HUGE_VALQ;
-      WORST("rev-oracle.gamma/tol", D(eg / tgr), where);
-      WORST("rev-oracle.k/tol", D(ek / tk2), where);
+      WORST("rev-oracle.gamma/tol", D(eg / tgr), 0);
+      WORST("rev-oracle.k/tol", D(ek / tk2), 0);
       if (eg > tgr && !regpole) FAIL("rev-oracle-convergence", "gamma=" + fx(g2) + " closed form " + fq(gref), (!U.defect.empty() && U.defect_in_reverse) ? mc::Fields{{"defect", U.defect}} : mc::Fields{});
       if (ek > tk2) { if (fam.prolate && err <= tauf_gross) FAIL("rev-oracle-scale", "k=" + fx(k2) + " closed form " + fq(kk), {{"tauf", "prolate-reverse"}}); else FAIL("rev-oracle-scale", "k=" + fx(k2) + " closed form " + fq(kk), (!U.defect.empty() && U.defect_in_reverse) ? mc::Fields{{"defect", U.defect}} : mc::Fields{}); }
     }
     if (ctx.want_sample()) ctx.sample(where + " -> x=" + fmt(x) + " y=" + fmt(y) + " gamma=" + fmt(gam) + " k=" + fmt(k) + " | closed form x=" + fq(P.x) + " y=" + fq(P.y));
+#undef where
   }
 }
 
@@ -318,6 +320,9 @@ struct EllP { const char* name; double a, f; bool quick; };
 static const EllP ELLS[] = {
   {"WGS84", WGS84_A, WGS84_F, true}, {"sphere", WGS84_A, 0.0, true}, {"f=+0.1", WGS84_A, 0.1, false}, {"f=-0.1", WGS84_A, -0.1, true},
   {"f=+0.5,a=1", 1.0, 0.5, true}, {"f=-0.2", WGS84_A, -0.2, false},
+  // deep thorough tier
+  {"Intl1924", 6378388.0, 1 / 297.0, false}, {"f=-1/298.257", WGS84_A, -WGS84_F, false}, {"f=+1/150,a=1", 1.0, 1 / 150.0, false}, {"f=-1/150", WGS84_A, -1 / 150.0, false},
+  {"f=+0.01", WGS84_A, 0.01, false}, {"f=-0.01", WGS84_A, -0.01, false}, {"f=+0.05", WGS84_A, 0.05, false}, {"f=-0.05", WGS84_A, -0.05, false}, {"f=+0.2", WGS84_A, 0.2, false},
 };
 struct Pair { double l1, l2; };
 
@@ -325,17 +330,35 @@ int main(int argc, char** argv) {
   Ctx ctx(argc, argv);
   const bool T = ctx.thorough();
   const std::vector<double> K1 = {1.0, 0.994};
-  const std::vector<double> SINGLE = {-90, -60, -1e-9, 0, 1e-9, 45, 89.999, 90};
-  const std::vector<Pair> PAIRS = {{30, 60}, {45, 45 + 1e-9}, {45, 45 + 1e-5}, {-30, 30}, {0, 1e-9}, {89, 89.9}, {-60, -20}};
+  std::vector<double> SINGLE = {-90, -60, -1e-9, 0, 1e-9, 45, 89.999, 90};
+  std::vector<Pair> PAIRS = {{30, 60}, {45, 45 + 1e-9}, {45, 45 + 1e-5}, {-30, 30}, {0, 1e-9}, {89, 89.9}, {-60, -20}};
+  std::vector<Pair> ALBERS_ONLY;           // one parallel at a pole: admissible for Albers, documented GeographicErr for LambertConformalConic
   // incl. the Math::tauf thresholds: one vs two Newton steps at 3.35 deg, asymptotic start value for |taup| > 70 (lat > 89.18)
-  const std::vector<double> LATBASE = {-90, -89.999999999, -89.5, -89, -60, -45, -4, -1, -1e-9, 0, 1e-9, 1, 3, 30, 45, 60, 75, 89, 89.5, 89.999999999, 90};
+  std::vector<double> LATBASE = {-90, -89.999999999, -89.5, -89, -60, -45, -4, -1, -1e-9, 0, 1e-9, 1, 3, 30, 45, 60, 75, 89, 89.5, 89.999999999, 90};
   Axes AX; AX.dlons = {0, 1e-9, 30, 90, 179, 180, -180, -30, -179}; AX.lon0s = {0, -170, 190};
   if (!T) AX.dlons = {0, 1e-9, 30, 179, 180, -180, -30};
-  ctx.bound("ellipsoids", T ? "WGS84, sphere, f=+0.1, f=-0.1, (a=1,f=0.5), f=-0.2" : "WGS84, sphere, f=-0.1, (a=1,f=0.5)");
-  ctx.bound("scales", "k0/k1 in {1, 0.994}; SetScale(lat, k) for lat in the latitude alphabet, k in {1, 0.9}");
-  ctx.bound("parallels", "single {-90,-60,-1e-9,0,1e-9,45,89.999,90}; pairs {(30,60),(45,45+1e-9),(45,45+1e-5),(-30,30),(0,1e-9),(89,89.9),(-60,-20)} in both orders; constructor forms: 1-parallel, 2-parallel, sin/cos");
-  ctx.bound("lat", "{+-90, +-(90-1e-9), +-89.5, +-89, -60, -45, -4, -1, +-1e-9, 0, 1, 3, 30, 45, 60, 75} + each standard parallel, the origin latitude and their +-1e-9 neighbours");
-  ctx.bound("dlon", T ? "{0, 1e-9, 30, 90, 179, 180, -180, -30, -179}" : "{0, 1e-9, 30, 179, 180, -180, -30}");
+  std::vector<double> SETSCALE_LATS = {-89.0, -60.0, 0.0, 1e-9, 45.0, 89.0};
+  if (T) {   // deep thorough tier
+    for (double v : {-89.999, -89.0, -75.0, -45.0, -30.0, -10.0, -1.0, 1.0, 10.0, 30.0, 60.0, 75.0, 89.0, 89.9}) SINGLE.push_back(v);
+    // nearly equal parallels at several separations (mid, equator, near the pole; both hemispheres), wide and asymmetric pairs, pairs across the equator
+    for (Pair q : {Pair{45, 45 + 1e-7}, Pair{45, 45.001}, Pair{45, 45.1}, Pair{45, 46}, Pair{0, 1e-5}, Pair{-1e-5, 2e-5}, Pair{-1e-9, 1e-9}, Pair{1e-9, 1e-5}, Pair{89.9, 89.99}, Pair{89.99, 89.999},
+                   Pair{-45, -45 - 1e-9}, Pair{-45, -45.00001}, Pair{-45, -45.001}, Pair{-45, -46}, Pair{-30, -60}, Pair{-89, -89.9}, Pair{-89.9, -89.99}, Pair{-80, -20}, Pair{-1e-5, -1e-9},
+                   Pair{-10, 40}, Pair{-40, 10}, Pair{-60, 60}, Pair{-5, 85}, Pair{-85, 5}, Pair{20, 80}, Pair{0, 45}, Pair{-45, 0}, Pair{5, 85}, Pair{-85, -5}, Pair{10, 10.5}, Pair{-70, -69.5}})
+      PAIRS.push_back(q);
+    ALBERS_ONLY = {{90, 45}, {-90, -30}, {90, -30}, {90, 89.9}, {-90, -89.99}, {0, 90}};
+    for (double v : {-89.9, -89.2, -89.1, -85.0, -80.0, -70.0, -50.0, -30.0, -20.0, -10.0, -3.4, -3.3, -0.1, 0.1, 3.3, 3.4, 10.0, 20.0, 40.0, 50.0, 70.0, 80.0, 85.0, 89.1, 89.2, 89.9, 89.99, -89.99}) LATBASE.push_back(v);
+    AX.dlons = {0, 1e-9, -1e-9, 1, 30, 60, 90, 120, 150, 179, 179.999999999, 180, -180, -30, -90, -150, -179};
+    SETSCALE_LATS = {-89.0, -60.0, -30.0, -1e-9, 0.0, 1e-9, 10.0, 45.0, 75.0, 89.0};
+  }
+  ctx.bound("ellipsoids", T ? "WGS84, sphere, Intl1924, f=+-1/298.257, (a=1,f=1/150), f=-1/150, f=+-0.01, f=+-0.05, f=+-0.1, f=+-0.2, (a=1,f=0.5)" : "WGS84, sphere, f=-0.1, (a=1,f=0.5)");
+  ctx.bound("scales", T ? "k0/k1 in {1, 0.994}; SetScale(lat, k): polar stereographic at every latitude of the alphabet, conics at lat {-89,-60,-30,-1e-9,0,1e-9,10,45,75,89}, k in {1, 0.9}, each followed by the FULL lat x dlon x lon0 lattice"
+                          : "k0/k1 in {1, 0.994}; SetScale(lat, k): polar stereographic at every latitude of the alphabet, conics at lat {-89,-60,0,1e-9,45,89}, k in {1, 0.9}, each followed by a 4 x 3 lat x dlon lattice");
+  ctx.bound("parallels", std::string("single {-90,-60,-1e-9,0,1e-9,45,89.999,90}; pairs {(30,60),(45,45+1e-9),(45,45+1e-5),(-30,30),(0,1e-9),(89,89.9),(-60,-20)} in both orders; constructor forms: 1-parallel, 2-parallel, sin/cos") +
+            (T ? "; deep tier: 14 more singles {+-89.999.., +-75, +-45 .. +-1, 89.9}, 31 more pairs (separations 1e-9, 1e-7, 1e-5, 1e-3, 0.1, 1 deg at 45, 0, -45 and near both poles; southern pairs; pairs across the equator incl. (-60,60); "
+                 "wide pairs to (-85,5)/(5,85)), 6 pole+parallel pairs (Albers; LambertConformalConic must throw), sin/cos constructors also with un-normalised (x0.5, x0.25) arguments" : ""));
+  ctx.bound("lat", std::string("{+-90, +-(90-1e-9), +-89.5, +-89, -60, -45, -4, -1, +-1e-9, 0, 1, 3, 30, 45, 60, 75} + each standard parallel, the origin latitude and their +-1e-9 neighbours") +
+            (T ? "; deep tier adds +-{0.1, 3.3, 3.4, 10, 20, 50, 70, 80, 85, 89.1, 89.2, 89.9, 89.99}, -30, 40" : ""));
+  ctx.bound("dlon", T ? "{0, +-1e-9, 1, 30, 60, 90, 120, 150, 179, 180-1e-9, 180, -180, -30, -90, -150, -179}" : "{0, 1e-9, 30, 179, 180, -180, -30}");
   ctx.bound("lon0", "{0, -170, 190}");
   ctx.bound("oracle", "Snyder closed forms in __float128; Jacobian by central differences (h = 2^-30 rad)");
   ctx.note("tolerances: position 2 x 10 nm ground distance (LambertConformalConic.hpp; the C11 statement extends it to the other two classes); conformal maps: plane distance / k; "
@@ -404,6 +427,27 @@ int main(int argc, char** argv) {
       std::vector<Spec> specs;
       for (double s : SINGLE) specs.push_back({s, s, true});
       for (const Pair& p : PAIRS) { specs.push_back({p.l1, p.l2, false}); }
+      if (albers) for (const Pair& p : ALBERS_ONLY) specs.push_back({p.l1, p.l2, false});
+      // documented constructor errors: LambertConformalConic with one parallel at a pole and a different second one; AlbersEqualArea with opposite poles
+      if (T) {
+        if (ctx.take()) {
+          auto must_throw = [&](const std::string& nm, std::function<void()> mk) {
+            mc::Ctx::Case cs(ctx); bool threw = false;
+            try { mk(); } catch (const GeographicErr&) { threw = true; } catch (...) {}
+            if (!threw) ctx.fail(nm + " accepted " + EP.name, nm + " (" + EP.name + "): documented GeographicErr not thrown", {{"kind", "ctor-accepts-inadmissible"}, {"proj", nm}});
+          };
+          if (!albers) for (const Pair& q : ALBERS_ONLY) for (int ord = 0; ord < 2; ++ord) {
+            double a1 = ord ? q.l2 : q.l1, a2 = ord ? q.l1 : q.l2, s1, c1, s2, c2; sincos_deg(a1, s1, c1); sincos_deg(a2, s2, c2);
+            must_throw("LambertConformalConic(" + fmt(a1) + "," + fmt(a2) + ")", [&] { LambertConformalConic t(EP.a, EP.f, a1, a2, 1.0); });
+            must_throw("LambertConformalConic(sincos " + fmt(a1) + "," + fmt(a2) + ")", [&] { LambertConformalConic t(EP.a, EP.f, s1, c1, s2, c2, 1.0); });
+          }
+          if (albers) for (int ord = 0; ord < 2; ++ord) {
+            must_throw("AlbersEqualArea(sincos +-pole)", [&] { AlbersEqualArea t(EP.a, EP.f, ord ? -1.0 : 1.0, 0.0, ord ? 1.0 : -1.0, 0.0, 1.0); });
+            must_throw("AlbersEqualArea(91)", [&] { AlbersEqualArea t(EP.a, EP.f, ord ? 91.0 : -91.0, 1.0); });
+          }
+          if (!albers) must_throw("LambertConformalConic(91)", [&] { LambertConformalConic t(EP.a, EP.f, 91.0, 1.0); });
+        }
+      }
       for (const Spec& sp : specs) for (double k1 : K1) {
         if (!ctx.take()) continue;
         // admissibility (documented): LCC: a pole only with equal parallels; Albers: not opposite poles
@@ -429,11 +473,13 @@ int main(int argc, char** argv) {
           add(fmt(sp.l1) + "," + fmt(sp.l2), [&](Under& U) { bind(U, std::make_shared<AlbersEqualArea>(EP.a, EP.f, sp.l1, sp.l2, k1)); });
           if (!sp.single) add(fmt(sp.l2) + "," + fmt(sp.l1), [&](Under& U) { bind(U, std::make_shared<AlbersEqualArea>(EP.a, EP.f, sp.l2, sp.l1, k1)); });
           add("sincos " + fmt(sp.l1) + "," + fmt(sp.l2), [&](Under& U) { bind(U, std::make_shared<AlbersEqualArea>(EP.a, EP.f, s1, c1, s2, c2, k1)); });
+          if (T) add("sincos(x0.5,x0.25) " + fmt(sp.l1) + "," + fmt(sp.l2), [&](Under& U) { bind(U, std::make_shared<AlbersEqualArea>(EP.a, EP.f, s1 * 0.5, c1 * 0.5, s2 * 0.25, c2 * 0.25, k1)); });
         } else {
           if (sp.single) add(fmt(sp.l1), [&](Under& U) { bind(U, std::make_shared<LambertConformalConic>(EP.a, EP.f, sp.l1, k1)); });
           add(fmt(sp.l1) + "," + fmt(sp.l2), [&](Under& U) { bind(U, std::make_shared<LambertConformalConic>(EP.a, EP.f, sp.l1, sp.l2, k1)); });
           if (!sp.single) add(fmt(sp.l2) + "," + fmt(sp.l1), [&](Under& U) { bind(U, std::make_shared<LambertConformalConic>(EP.a, EP.f, sp.l2, sp.l1, k1)); });
           add("sincos " + fmt(sp.l1) + "," + fmt(sp.l2), [&](Under& U) { bind(U, std::make_shared<LambertConformalConic>(EP.a, EP.f, s1, c1, s2, c2, k1)); });
+          if (T) add("sincos(x0.5,x0.25) " + fmt(sp.l1) + "," + fmt(sp.l2), [&](Under& U) { bind(U, std::make_shared<LambertConformalConic>(EP.a, EP.f, s1 * 0.5, c1 * 0.5, s2 * 0.25, c2 * 0.25, k1)); });
         }
         // static instances
         if (std::string(EP.name) == "WGS84" && k1 == 1.0 && sp.single) {
@@ -484,7 +530,7 @@ int main(int argc, char** argv) {
           south_defect_present = dm < 1e-3Q * ascale0 && dt > 1e3Q * ascale0;       // Forward(-50) is the image of +50
           if (south_defect_present) ctx.list("degraded", "AlbersEqualArea::SetScale on southern-hemisphere cones evaluates the defective Forward (known finding albers-south-forward-uses-minus-lat): all its failures are attributed to that finding");
         }
-        if (!forms.empty()) for (double ls : {-89.0, -60.0, 0.0, 1e-9, 45.0, 89.0}) for (double ks : {1.0, 0.9}) {
+        if (!forms.empty()) for (double ls : SETSCALE_LATS) for (double ks : {1.0, 0.9}) {
           mc::Ctx::Case cs0(ctx);
           std::shared_ptr<LambertConformalConic> lc; std::shared_ptr<AlbersEqualArea> al;
           Under U; U.name = forms[0].name + ".SetScale(" + fmt(ls) + "," + fmt(ks) + ")";
@@ -510,6 +556,7 @@ int main(int argc, char** argv) {
             U.defect_k = Os.k;
           }
           Axes As; As.lats = {ls, -45, 30, 60}; As.dlons = {0, 30, -179}; As.lon0s = {0};
+          if (T) { As = A; if (std::find(As.lats.begin(), As.lats.end(), ls) == As.lats.end()) As.lats.push_back(ls); }      // deep tier: the full lattice
           check_projection(ctx, E, U, Os, As, f2, {}, 1.0, false);
           { double x, y, g, k; U.fwd(0, ls, 20, x, y, g, k); Q e = fabsq(Q(k) / Q(ks) - 1);
             if (e > 1.6e-14Q) { mc::Fields ff = {{"kind", "setscale-k"}, {"proj", U.name}}; if (U.defect_blanket) ff.push_back({"defect", U.defect}); ctx.fail(U.name + " setscale-k", U.name + ": Forward gives k=" + fx(k) + " at the SetScale latitude", ff); } }
